@@ -65,13 +65,24 @@ _OPS = {"node": ["set", "set", "set", "reformat_ud", "add_comp", "rm_comp", "add
 _IFTYPES = ["DedicatedPort", "DedicatedPort", "SharedPort", "AccessPort", "TrunkPort", "vInt", "FacilityPort"]
 
 
+_NEEDS = {"rm_comp": "comp", "rm_nsvc": "nsvc", "add_iface": "csvc", "rm_iface": "ciface", "add_sub": "dport",
+          "rm_sub": "csub"}
+
+
 @st.composite
-def _edit(draw, mode, j):
-    op = draw(st.sampled_from(_OPS[mode]))
+def _edit(draw, mode, avail):
+    """avail: the levels that are non-empty in the base (only steers the distribution; targets are still resolved
+    modulo the live list when the script runs, so a script stays executable under shrinking)"""
+    ops = [o for o in _OPS[mode] if _NEEDS.get(o, "node") in avail or o in ("set", "reformat_ud", "add_comp",
+                                                                             "add_nsvc")]
+    if mode == "interface":
+        ops = [o for o in ops if o != "rm_iface"]
+    op = draw(st.sampled_from(ops))
     k = draw(st.integers(0, 7))
-    nid = f"e{j}"
+    nid = "e"           # the interpreter re-prefixes the ids of an added subtree with the edit's position
+    levels = [x for x in _LEVELS[mode] if x in avail]
     if op == "set":
-        lvl = draw(st.sampled_from(_LEVELS[mode]))
+        lvl = draw(st.sampled_from(levels))
         if draw(st.integers(0, 4)) == 0:
             prop = draw(st.sampled_from(UNTRACKED))
         else:
@@ -80,9 +91,9 @@ def _edit(draw, mode, j):
             draw(E.value_desc("interface", prop, simple_json=True))
         return {"op": op, "lvl": lvl, "k": k, "prop": prop, "value": val}
     if op == "reformat_ud":
-        return {"op": op, "lvl": draw(st.sampled_from(_LEVELS[mode])), "k": k}
+        return {"op": op, "lvl": draw(st.sampled_from(levels)), "k": k}
     if op == "add_comp":
-        t = draw(st.sampled_from(["SmartNIC", "SharedNIC", "FPGA", "GPU", "NVME"]))
+        t = draw(st.sampled_from(["SmartNIC", "SmartNIC", "SharedNIC", "FPGA", "GPU", "NVME"]))
         return {"op": op, "new": draw(E.sliver_desc("component", nid=nid, force_type=t, **_KW))}
     if op == "add_nsvc":
         return {"op": op, "new": draw(E.sliver_desc("service", nid=nid, **_KW))}
@@ -98,14 +109,19 @@ def _edit(draw, mode, j):
 @st.composite
 def _case(draw):
     mode = draw(st.sampled_from(["node"] * 6 + ["service"] * 3 + ["interface"] * 2))
+    # the number of edits is drawn before the (large) base so that it is not starved by Hypothesis' size control
+    n = draw(st.sampled_from([0, 1, 2, 3, 1, 2, 3, 2, 4, 5, 2, 3]))
     if mode == "node":
         base = draw(E.sliver_desc("node", **_KW))
     elif mode == "service":
         base = draw(E.sliver_desc("service", **_KW))
     else:
         base = draw(E.sliver_desc("interface", force_type="DedicatedPort", **_KW))
-    n = draw(st.sampled_from([0, 1, 1, 2, 2, 3, 3, 4, 5]))
-    return {"mode": mode, "base": base, "edits": [draw(_edit(mode, j)) for j in range(n)]}
+    lv = _live(base, mode)
+    avail = {k for k, x in lv.items() if x}
+    if any(i["type"] == "DedicatedPort" for i in lv["ciface"]):
+        avail.add("dport")
+    return {"mode": mode, "base": base, "edits": [draw(_edit(mode, avail)) for _ in range(n)]}
 
 
 def strategy(tier):
@@ -135,6 +151,8 @@ def _live(root, mode):
 def _fresh(new, j, siblings):
     new = copy.deepcopy(new)
     new["name"] = new["name"][:200] + f"_e{j}"
+    for x in E.walk(new):
+        x["node_id"] = f"e{j}" + x["node_id"][1:]
     assert new["name"] not in {s["name"] for s in siblings}
     return new
 
@@ -365,6 +383,14 @@ def canon_diff(d, mode):
     return _finish(r)           # a TopologyDiff object with nothing in it also "reports no difference"
 
 
+def _delta(exp, act):
+    """compact text of the differing parts only"""
+    if exp is None or act is None:
+        return f"expected {json.dumps(exp)} got {json.dumps(act)}"
+    return "; ".join(f"{s}.{c}: expected {json.dumps(exp[s][c])} got {json.dumps(act[s][c])}"
+                     for s in exp for c in exp[s] if exp[s][c] != act[s][c])
+
+
 def _explain(exp, act):
     if exp is None or act is None:
         return [("no-diff-expected" if exp is None else "diff-missing", "all")] if exp != act else []
@@ -402,11 +428,11 @@ def run_case(case):
             for T in _TOGGLE_SETS:
                 if actual == ref(da, db, frozenset(T)):
                     for t in T:
-                        v.append((_TOGGLE_SIG[t], f"{what}: expected {json.dumps(exp)} got {json.dumps(actual)}"))
+                        v.append((_TOGGLE_SIG[t], f"{what}: {_delta(exp, actual)}"))
                     return
         for clause, cat in _explain(exp, actual):
             v.append((f"C17/{cname}.diff/{clause}/{cat}",
-                      f"{what}: expected {json.dumps(exp)} got {json.dumps(actual)} applied={applied}"))
+                      f"{what}: {_delta(exp, actual)} applied={applied}"))
 
     # clause 1: a sliver compared with itself
     ok, d = call(A, A, "A.diff(A)")
@@ -478,7 +504,7 @@ def _i(name, nid, typ="DedicatedPort", props=None, subs=()):
 
 PROBES = {
     SIG_NS: {"mode": "node", "base": _n("n1", "n", svcs=[_s("s1", "n/s0")]),
-             "edits": [{"op": "add_nsvc", "new": _s("s2", "e0")}]},
+             "edits": [{"op": "add_nsvc", "new": _s("s2", "e")}]},
     SIG_UD: {"mode": "node", "base": _n("n1", "n", props={"user_data": {"form": "obj", "v": {"k": 2}, "fmt": 0}}),
              "edits": []},
     SIG_DP: {"mode": "service", "base": _s("s1", "n", ifs=[_i("p1", "n/i0", subs=[_i("u1", "n/i0/u0", "SubInterface")])]),
